@@ -89,6 +89,27 @@ NDOSE = {"A2": [0.5, 0.25], "B2": [0.5, 0.25], "A1": [0.5], "A3": [0.5, 0.375, 0
 GDOSE = {"A2": [0.125, 0.0625], "B2": [0.125, 0.0625], "A1": [0.125], "A3": [0.125, 0.09375, 0.0625]}
 
 LABEL_INDEX = {"U235AA": 1, "U235AB": 2, "FE56AA": 3, "FE56AB": 4, "NA23AA": 5, "NA23AB": 6, "DMP1AA": 7, "DMP1AB": 8}
+# the presence-pattern family: 8 nuclides, one per subset of {elastic, inelastic, n2n} scatter blocks
+PATTERN_NUCS = ["U235", "U238", "FE54", "FE56", "CR52", "NI58", "MN55", "NA23"]
+LABEL_INDEX.update({"P:" + n: 16 + i for i, n in enumerate(PATTERN_NUCS)})
+
+
+def _pattern_traits():
+    """Nuclide i holds scatter block b (elastic, inelastic, n2n) iff bit b of i is set, and for
+    gamma data iff bit b of 7-i is set; each optional reaction is present for some nuclides and
+    absent for others, independently of the scatter blocks."""
+    out = {}
+    for i, n in enumerate(PATTERN_NUCS):
+        j = (3 * i + 1) % 8
+
+        def ords(k):
+            el, inel, n2n = k & 1, (k >> 1) & 1, (k >> 2) & 1
+            return [el, el & inel, inel, n2n]  # block order: elastic P0, elastic P1, inelastic, n2n
+
+        out[n] = dict(fis=1 if i in (0, 1, 6) else 0, chi=1 if i in (0, 1, 6) else 0, nalph=j & 1, np=(j >> 1) & 1, nd=(j >> 2) & 1, n2n=1 if i % 3 == 0 else 0,
+                      nt=1 if i % 2 == 0 else 0, ltot=2, ltrn=2, ords=ords(i), gords=ords(7 - i), amass=50.0 + i, efiss=2.0 ** -35 if i in (0, 1, 6) else 0.0, ecapt=(1.0 + i / 8.0) * 2.0 ** -40)
+    return out
+
 
 # per base nuclide: which optional reactions / scatter blocks exist (the readers branch on each)
 TRAITS = {
@@ -99,6 +120,19 @@ TRAITS = {
 }
 SCAT_FLAGS = [100, 101, 200, 300]  # elastic P0, elastic P1, inelastic, n2n
 SCAT_ATTR = ["elasticScatter", "elasticScatter1stOrder", "inelasticScatter", "n2nScatter"]
+PATTERN_TRAITS = _pattern_traits()
+
+
+def traits_of(spec, label, gamma=False):
+    t = dict((PATTERN_TRAITS if spec and spec.get("pattern") else TRAITS)[label[:-2]])
+    if gamma and "gords" in t:
+        t["ords"] = t["gords"]
+    return t
+
+
+def index_of(spec, label):
+    return LABEL_INDEX["P:" + label[:-2]] if spec and spec.get("pattern") else LABEL_INDEX[label]
+
 
 # name -> spec. ``kinds`` data held; ``n``/``g`` neutron/gamma structure keys; labels in file order.
 GEN_POOL = [
@@ -114,6 +148,13 @@ GEN_POOL = [
     {"name": "pmxB", "kinds": ["PMATRX"], "n": "B2", "g": "A2", "labels": ["DMP1AB"]},  # other neutron bounds, carries dose factors
     {"name": "pmxGB", "kinds": ["PMATRX"], "n": "A2", "g": "B2", "labels": ["NA23AB"]},  # other gamma bounds
     {"name": "isoA4", "kinds": ["ISOTXS"], "n": "A2", "labels": ["DMP1AB", "NA23AB"], "filemeta": {"fileId": 1}},  # other file-wide metadata
+]
+# exact duplicates (independently built, value-identical, same labels), one per kind of data: the
+# same kind of data for the same label from a second source must be refused even when the numbers agree
+GEN_POOL += [
+    {"name": "isoA1dup", "kinds": ["ISOTXS"], "n": "A2", "labels": ["U235AA", "FE56AA", "DMP1AA"]},
+    {"name": "gamA1dup", "kinds": ["GAMISO"], "g": "A2", "labels": ["U235AA", "FE56AA", "DMP1AA"]},
+    {"name": "pmxA1dup", "kinds": ["PMATRX"], "n": "A2", "g": "A2", "labels": ["U235AA", "FE56AA"]},
 ]
 GEN_POOL_THOROUGH_EXTRA = []
 # libraries for the macroscopic part: merge sequences over these give every kind for every nuclide
@@ -134,6 +175,15 @@ MACRO_MEMBERS = {
         {"name": "m3gp", "kinds": ["GAMISO", "PMATRX"], "n": "A3", "g": "A2", "labels": ["U235AA", "FE56AA", "NA23AA", "U235AB"]},
     ],
 }
+PATTERN_LABELS = [n + "AA" for n in PATTERN_NUCS]
+MACRO_MEMBERS["pat2"] = [
+    {"name": "p2iso", "kinds": ["ISOTXS"], "n": "A2", "labels": PATTERN_LABELS, "pattern": True},
+    {"name": "p2gam", "kinds": ["GAMISO"], "g": "A2", "labels": PATTERN_LABELS, "pattern": True},
+]
+MACRO_MEMBERS["pat3"] = [
+    {"name": "p3iso", "kinds": ["ISOTXS"], "n": "A3", "labels": PATTERN_LABELS, "pattern": True},
+    {"name": "p3gam", "kinds": ["GAMISO"], "g": "A3", "labels": PATTERN_LABELS, "pattern": True},
+]
 FIXTURES = {
     "ISOAA": ("ISOTXS", "ISOAA"),
     "ISOAB": ("ISOTXS", "ISOAB"),
@@ -142,6 +192,8 @@ FIXTURES = {
     "pmxAA": ("PMATRX", "AA.pmatrx"),
     "pmxAB": ("PMATRX", "AB.pmatrx"),
 }
+# the same fixture file read a second time
+FIXTURE_DUPS = {k + "#2": v for k, v in FIXTURES.items()}
 COMBINED = {"ISOTXS": "combined-AA-AB.isotxs", "GAMISO": "combined-AA-AB.gamiso", "PMATRX": "combined-AA-AB.pmatrx"}
 
 
@@ -169,6 +221,8 @@ def pool_members(pool, quick=True):
         return list(FIXTURES)
     if pool == "cross":
         return [s["name"] for s in GEN_POOL] + list(FIXTURES)
+    if pool == "fixdup":
+        return list(FIXTURES) + list(FIXTURE_DUPS)
     raise ValueError(pool)
 
 
@@ -177,10 +231,10 @@ def val(idx, r, g, scale=1.0):
     return scale * (idx * 512 + r * 16 + g + 1) / 4096.0
 
 
-def gen_collection(label, ng, gamma):
+def gen_collection(label, ng, gamma, spec=None):
     """Expected content of one XSCollection as plain lists (None = attribute stays None)."""
-    t = TRAITS[label[:-2]]
-    idx = LABEL_INDEX[label] + (8 if gamma else 0)
+    t = traits_of(spec, label, gamma)
+    idx = index_of(spec, label) + (32 if gamma else 0)
     zero = [0.0] * ng
     fis = t["fis"] and not gamma
     c = {a: None for a in COLLECTION_ATTRS}
@@ -209,8 +263,8 @@ def gen_collection(label, ng, gamma):
     return c
 
 
-def gen_nuclide_meta(label, ng, gamma):
-    t = TRAITS[label[:-2]]
+def gen_nuclide_meta(label, ng, gamma, spec=None):
+    t = traits_of(spec, label, gamma)
     fis = t["fis"] and not gamma
     md = {
         "nuclideId": label[:-2] + ("_7" if label[:-2] != "DMP1" else ""),
@@ -220,7 +274,7 @@ def gen_nuclide_meta(label, ng, gamma):
         "efiss": t["efiss"],
         "ecapt": t["ecapt"],
         "temp": 873.0,
-        "sigPot": 10.0 + LABEL_INDEX[label],
+        "sigPot": 10.0 + index_of(spec, label),
         "adens": 0.0009765625,
         "classif": 0,
         "chiFlag": 1 if fis else 0,
@@ -278,8 +332,8 @@ def gen_file_meta(kind, spec):
     }
 
 
-def gen_pmatrx(label, ng, gg):
-    idx = LABEL_INDEX[label] + 16
+def gen_pmatrx(label, ng, gg, spec=None):
+    idx = index_of(spec, label) + 64
     return {
         "meta": {
             "hasNeutronHeatingAndDamage": True,
@@ -350,15 +404,15 @@ def build_generated(spec):
         nuc = xsNuclides.XSNuclide(lib, label)
         lib[label] = nuc
         if "ISOTXS" in kinds:
-            for k, v in gen_nuclide_meta(label, ng, False).items():
+            for k, v in gen_nuclide_meta(label, ng, False, spec).items():
                 nuc.isotxsMetadata[k] = np.array(v) if k in ("scatFlag", "ords") else v
-            _fill_collection(nuc.micros, gen_collection(label, ng, False), ng)
+            _fill_collection(nuc.micros, gen_collection(label, ng, False, spec), ng)
         if "GAMISO" in kinds:
-            for k, v in gen_nuclide_meta(label, gg, True).items():
+            for k, v in gen_nuclide_meta(label, gg, True, spec).items():
                 nuc.gamisoMetadata[k] = np.array(v) if k in ("scatFlag", "ords") else v
-            _fill_collection(nuc.gammaXS, gen_collection(label, gg, True), gg)
+            _fill_collection(nuc.gammaXS, gen_collection(label, gg, True, spec), gg)
         if "PMATRX" in kinds:
-            p = gen_pmatrx(label, ng, gg)
+            p = gen_pmatrx(label, ng, gg, spec)
             for k, v in p["meta"].items():
                 nuc.pmatrxMetadata[k] = list(v) if isinstance(v, list) else v
             for attr in ("neutronHeating", "neutronDamage", "gammaHeating", "isotropicProduction"):
@@ -369,10 +423,10 @@ def build_generated(spec):
 
 def build_member(name):
     """A fresh library for pool member ``name`` (never cached: merge guts its argument)."""
-    if name in FIXTURES:
+    if name in FIXTURES or name in FIXTURE_DUPS:
         from armi.nuclearDataIO.cccc import gamiso, isotxs, pmatrx
 
-        kind, fname = FIXTURES[name]
+        kind, fname = (FIXTURES.get(name) or FIXTURE_DUPS[name])
         reader = {"ISOTXS": isotxs.readBinary, "GAMISO": gamiso.readBinary, "PMATRX": pmatrx.readBinary}[kind]
         return reader(os.path.join(fixture_dir(), fname))
     return build_generated(SPECS[name])
